@@ -10,6 +10,9 @@ Q = ['w', 'x', 'y', 'z']
 P = ['a', 'b', 'c', 'd']
 W = ['wx', 'wy', 'wz']
 IN = ['dt'] + W + Q
+B3 = ['b0', 'b1', 'b2']
+M3 = ['m0', 'm1', 'm2']
+AQ = ['alpha', 'beta', 'thr']
 ORDERS = list(range(7))
 
 LEVEL_TEXT = ("Coq theorems over the regenerated AngularRate.update ('closed'; 'series' for each order 0..6), the null-accelerometer "
@@ -45,11 +48,39 @@ def targets():
         tg.append(mk(f'series{k}', IN,
                      (lambda A, v, k=k: F(A).AngularRate().update(v.vec(*Q), v.vec(*W), method='series', order=k, dt=v.dt)),
                      f"AngularRate().update(q, w, method='series', order={k}, dt=dt)"))
+    # the gyro-only steps, quantified over the CARRIED state of each filter as well (attributes set to symbols):
+    # Mahony's bias estimate b and gains, Madgwick's gain, AQUA's alpha/beta/threshold (+ adaptive flag), EKF's P
+    def mahony(A, v, marg):
+        m = F(A).Mahony()
+        m.b, m.k_P, m.k_I = v.vec(*B3), v.kp, v.ki
+        q = m.updateMARG(v.vec(*Q), v.vec(*W), z3, v.vec(*M3), dt=v.dt) if marg else m.updateIMU(v.vec(*Q), v.vec(*W), z3, dt=v.dt)
+        return [q, m.b]
+
+    def madgwick(A, v, marg):
+        m = F(A).Madgwick()
+        m.gain = v.gain
+        return m.updateMARG(v.vec(*Q), v.vec(*W), z3, v.vec(*M3), dt=v.dt) if marg else m.updateIMU(v.vec(*Q), v.vec(*W), z3, dt=v.dt)
+
+    def aqua(A, v, marg, adaptive):
+        a = F(A).AQUA(adaptive=adaptive)
+        a.alpha, a.beta, a.threshold = v.alpha, v.beta, v.thr
+        return a.updateMARG(v.vec(*Q), v.vec(*W), z3, v.vec(*M3), dt=v.dt) if marg else a.updateIMU(v.vec(*Q), v.vec(*W), z3, dt=v.dt)
+
+    def ekf_f(A, v):
+        ek = F(A).EKF(magnetic_ref=[1.0, 0.0, 1.0])
+        ek.P = v.p * np.identity(4)
+        return ek.f(v.vec(*Q), v.vec(*W), v.dt)
+
     tg += [
-        mk('madgwick', IN, lambda A, v: F(A).Madgwick().updateIMU(v.vec(*Q), v.vec(*W), z3, dt=v.dt), 'Madgwick().updateIMU(q, w, acc=0, dt)'),
-        mk('mahony', IN, lambda A, v: F(A).Mahony().updateIMU(v.vec(*Q), v.vec(*W), z3, dt=v.dt), 'Mahony().updateIMU(q, w, acc=0, dt)'),
-        mk('aqua', IN, lambda A, v: F(A).AQUA().updateIMU(v.vec(*Q), v.vec(*W), z3, dt=v.dt), 'AQUA().updateIMU(q, w, acc=0, dt)'),
-        mk('ekf_f', IN, lambda A, v: F(A).EKF(magnetic_ref=[1.0, 0.0, 1.0]).f(v.vec(*Q), v.vec(*W), v.dt), 'EKF(...).f(q, w, dt)'),
+        mk('madgwick', IN + ['gain'], lambda A, v: madgwick(A, v, False), 'Madgwick(gain).updateIMU(q, w, acc=0, dt)'),
+        mk('madgwick_marg', IN + ['gain'] + M3, lambda A, v: madgwick(A, v, True), 'Madgwick(gain).updateMARG(q, w, acc=0, mag, dt)'),
+        mk('mahony', IN + B3 + ['kp', 'ki'], lambda A, v: mahony(A, v, False), 'Mahony(b, k_P, k_I).updateIMU(q, w, acc=0, dt) and the bias afterwards'),
+        mk('mahony_marg', IN + B3 + ['kp', 'ki'] + M3, lambda A, v: mahony(A, v, True),
+           'Mahony(b, k_P, k_I).updateMARG(q, w, acc=0, mag, dt) and the bias afterwards'),
+        mk('aqua', IN + AQ, lambda A, v: aqua(A, v, False, False), 'AQUA(alpha, beta, threshold).updateIMU(q, w, acc=0, dt)'),
+        mk('aqua_adaptive', IN + AQ, lambda A, v: aqua(A, v, False, True), 'AQUA(adaptive=True, ...).updateIMU(q, w, acc=0, dt)'),
+        mk('aqua_marg', IN + AQ + M3, lambda A, v: aqua(A, v, True, True), 'AQUA(adaptive=True, ...).updateMARG(q, w, acc=0, mag, dt)'),
+        mk('ekf_f', IN + ['p'], ekf_f, 'EKF(P = p I).f(q, w, dt)'),
         mk('roleq', IN, lambda A, v: F(A).ROLEQ(weights=np.ones(2), magnetic_ref=[1.0, 0.0, 1.0]).attitude_propagation(v.vec(*Q), v.vec(*W), v.dt),
            'ROLEQ(...).attitude_propagation(q, w, dt)'),
         mk('integration', ['g0', 'g1', 'g2'],
@@ -62,14 +93,46 @@ def targets():
 
 
 STAGES = [['C08_lib.v'],
-          ['C08_closed.v', 'C08_series.v', 'C08_series5.v', 'C08_series6.v', 'C08_bounds.v', 'C08_deadreck.v', 'C08_integration.v',
-           ('C08_refuted.v', {'finding': 'update-series/not-partial-sum'})],
-          ['C08.v', ('C08_integration_refuted.v', {'finding': 'AngularRate-integration/not-a-rotation-integral'})]]
+          ['C08_closed.v', 'C08_series.v', 'C08_series5.v', 'C08_series6.v', 'C08_bounds.v', 'C08_deadreck.v', 'C08_integration.v'],
+          ['C08.v', ('C08_integration_refuted.v', {'finding': 'AngularRate-integration/not-a-rotation-integral'}),
+           ('C08_margdt_refuted.v', {'finding': 'Madgwick.updateMARG/mag-null-delegation-drops-dt'})]]
 
 
 # ------------------------------------------------------------------------------------------
 # implementation entry points
 # ------------------------------------------------------------------------------------------
+def _filter(kind, st=None, **kw):
+    """a filter object carrying the given state (set the same way as in the traced targets: by attribute)"""
+    import ahrs
+    F = ahrs.filters
+    st = st or {}
+    if kind == 'mahony':
+        o = F.Mahony(**kw)
+        if 'b' in st:
+            o.b = np.array(st['b'], float)
+        o.k_P, o.k_I = st.get('kp', o.k_P), st.get('ki', o.k_I)
+    elif kind == 'madgwick':
+        o = F.Madgwick(**kw)
+        o.gain = st.get('gain', o.gain)
+    elif kind == 'aqua':
+        o = F.AQUA(adaptive=bool(st.get('adaptive', False)), **kw)
+        o.alpha, o.beta, o.threshold = st.get('alpha', o.alpha), st.get('beta', o.beta), st.get('thr', o.threshold)
+    elif kind == 'ekf':
+        o = F.EKF(magnetic_ref=[1.0, 0.0, 1.0], **kw)
+        if 'p' in st:
+            o.P = st['p'] * np.identity(4)
+    else:
+        raise KeyError(kind)
+    return o
+
+
+def _null_step(o, marg, dt, w, q, mag=None):
+    z3 = np.zeros(3)
+    if marg:
+        return np.asarray(o.updateMARG(np.array(q, float), np.array(w, float), z3, np.array(mag, float), dt=dt), float)
+    return np.asarray(o.updateIMU(np.array(q, float), np.array(w, float), z3, dt=dt), float)
+
+
 def _impl():
     import ahrs
     F = ahrs.filters
@@ -85,6 +148,24 @@ def _impl():
     for k in ORDERS:
         d[f'series{k}'] = (lambda dt, w, q, k=k: F.AngularRate().update(np.array(q), np.array(w), method='series', order=k, dt=dt))
     return d
+
+
+def _state_impl(name, c):
+    """the public entry point behind the traced target `name` on one case dict (all inputs of the target)"""
+    dt, w, q = c['dt'], [c[k] for k in W], [c[k] for k in Q]
+    mag = [c[k] for k in M3] if 'm0' in c else None
+    if name in ('mahony', 'mahony_marg'):
+        o = _filter('mahony', {'b': [c[k] for k in B3], 'kp': c['kp'], 'ki': c['ki']})
+        r = _null_step(o, name.endswith('marg'), dt, w, q, mag)
+        return [r, np.asarray(o.b, float)]
+    if name in ('madgwick', 'madgwick_marg'):
+        return _null_step(_filter('madgwick', {'gain': c['gain']}), name.endswith('marg'), dt, w, q, mag)
+    if name in ('aqua', 'aqua_adaptive', 'aqua_marg'):
+        o = _filter('aqua', {'alpha': c['alpha'], 'beta': c['beta'], 'thr': c['thr'], 'adaptive': name != 'aqua'})
+        return _null_step(o, name.endswith('marg'), dt, w, q, mag)
+    if name == 'ekf_f':
+        return np.asarray(_filter('ekf', {'p': c['p']}).f(np.array(q), np.array(w), dt), float)
+    raise KeyError(name)
 
 
 _CACHE = {}
@@ -138,9 +219,24 @@ def correspondence(ctx):
     cases += [{'dt': 0.01, **cm.d(W, [0.0, 0.0, 0.0]), **cm.d(Q, cs[5][1])},
               {'dt': 0.05, **cm.d(W, [10.0, 0.0, 0.0]), **cm.d(Q, [1.0, 0.0, 0.0, 0.0])},
               {'dt': 0.02, **cm.d(W, [0.5, -0.25, 2.0]), **cm.d(Q, [2.0, 0.0, -1.0, 0.5])}]
-    for name in ['closed'] + [f'series{k}' for k in ORDERS] + ['madgwick', 'mahony', 'aqua', 'ekf_f', 'roleq']:
+    for name in ['closed'] + [f'series{k}' for k in ORDERS] + ['roleq']:
         f = I[name]
         ctx.correspond(f'C08_{name}', cases, (lambda c, f=f: f(c['dt'], [c[k] for k in W], [c[k] for k in Q])), tol_ulp=128)
+    # the filters with a carried state: non-zero bias / gains / thresholds / covariance, zero and non-zero magnetometer
+    rng = ctx.rng
+    sc = []
+    for i, c in enumerate(cases):
+        st = {**cm.d(B3, rng.standard_normal(3) * 10 ** rng.uniform(-3, 0)), 'kp': float(rng.uniform(0.1, 3)), 'ki': float(rng.uniform(0.01, 1)),
+              'gain': float(rng.uniform(0.01, 0.5)), 'alpha': float(rng.uniform(0.001, 0.9)), 'beta': float(rng.uniform(0.001, 0.9)),
+              'thr': float(rng.uniform(0.5, 0.99)), 'p': float(10 ** rng.uniform(-3, 1)),
+              **cm.d(M3, rng.standard_normal(3) * 40 if i % 7 else np.zeros(3))}
+        if i % 5 == 0:
+            st.update(cm.d(B3, [0.0, 0.0, 0.0]))
+        sc.append({**c, **st})
+    for name in ('madgwick', 'madgwick_marg', 'mahony', 'mahony_marg', 'aqua', 'aqua_adaptive', 'aqua_marg', 'ekf_f'):
+        t = ctx.targets.get(f'C08_{name}')
+        keys = t.inputs if t is not None else list(sc[0])
+        ctx.correspond(f'C08_{name}', [{k: c[k] for k in keys} for c in sc], (lambda c, name=name: _state_impl(name, c)), tol_ulp=128)
     import ahrs
     two = [{**cm.d(P, cs[i][1]), **cm.d(Q, cs[(3 * i + 1) % len(cs)][1])} for i in range(len(cs))]
     two += [{**cm.d(P, 3 * cs[2][1]), **cm.d(Q, 0.5 * cs[4][1])}]
@@ -263,28 +359,79 @@ def o_series(inp):
     return None
 
 
+def _warm(objs, q, dt, n, seed):
+    """run n valid IMU / MARG samples through every filter object (so that carried state such as Mahony's bias estimate
+    or AQUA's adaptive gain is no longer at its initial value)"""
+    rng = np.random.default_rng(int(seed))
+    qt = cm.unit(rng.standard_normal(4))
+    field = np.array([22.0, 0.0, 42.0])
+    chain = {k: (cm.qconj(q) if k.startswith('AQUA') else q.copy()) for k in objs}
+    with np.errstate(all='ignore'):
+        for _ in range(int(n)):
+            g = 0.5 * rng.standard_normal(3)
+            R = cm.Rspec(qt)
+            acc = R.T @ np.array([0.0, 0.0, 9.81]) + 0.3 * rng.standard_normal(3)
+            mag = R.T @ field + 1.0 * rng.standard_normal(3)
+            for k, o in objs.items():
+                if k.startswith('AQUA'):
+                    qk = np.asarray(o.estimate(acc, mag), float)       # consistent attitude keeps AQUA's correction regular
+                else:
+                    qk = chain[k]
+                r = o.updateMARG(qk, g, acc, mag, dt=dt) if k.endswith('MARG') else o.updateIMU(qk, g, acc, dt=dt)
+                r = np.asarray(r, float)
+                chain[k] = r if r.shape == (4,) and not cm.bad(r) else qk
+            qt = cm.qmul(qt, _rot(g, dt))
+
+
 def o_deadreck(inp):
-    """acc = 0 steps of Madgwick, Mahony, AQUA (conjugate convention), EKF.f, ROLEQ.attitude_propagation and the order-1
-    series all equal normalise(q + dt/2 q(x)(0,w))"""
+    """acc = 0 steps of Madgwick, Mahony (IMU and MARG), AQUA (conjugate convention; IMU, MARG, adaptive or not), EKF.f,
+    ROLEQ.attitude_propagation and the order-1 series all equal normalise(q + dt/2 q(x)(0,w)) — for fresh filter objects,
+    for objects built with an initial bias b0 / other gains, and for objects that have already processed valid samples
+    (carried state); the filters are also compared with each other, and the null step must leave Mahony's bias alone"""
     I = _impl()
     q, w, dt = np.array(inp['q'], float), np.array(inp['w'], float), float(inp['dt'])
+    st = inp.get('state') or {}
+    mag = np.array(inp.get('mag', [22.0, -3.0, 42.0]), float)
+    warm, b0 = int(inp.get('warm', 0)), inp.get('b0')
+    region = ('-after-warmup' if warm else '') + ('-b0' if b0 is not None else '') + ('-state' if st else '')
     d = q + 0.5 * dt * cm.qmul(q, np.array([0.0, *w]))
     ref = d / np.linalg.norm(d)
     if not np.any(w):
         ref = q
-    outs = {
-        'Madgwick.updateIMU': I['madgwick'](dt, w, q), 'Mahony.updateIMU': I['mahony'](dt, w, q),
-        'AQUA.updateIMU': cm.qconj(I['aqua'](dt, w, cm.qconj(q))), 'ROLEQ.attitude_propagation': I['roleq'](dt, w, q),
-        'AngularRate.update-series1': I['series1'](dt, w, q),
-    }
-    f = np.asarray(I['ekf_f'](dt, w, q), float)
+    f = np.asarray(_filter('ekf', st).f(q.copy(), w.copy(), dt), float)
     if f.shape != (4,) or cm.maxabs(f, d) > 1e-13:
-        return {'tag': 'EKF.f/acc-null-step', 'observed': f, 'expected': d}
+        return {'tag': 'EKF.f/acc-null-step' + ('-state' if st else ''), 'observed': f, 'expected': d}
+    kw = {'b0': np.array(b0, float)} if b0 is not None else {}
+    objs = {'Mahony.updateIMU': _filter('mahony', st, **kw), 'Mahony.updateMARG': _filter('mahony', st, **kw),
+            'Madgwick.updateIMU': _filter('madgwick', st), 'Madgwick.updateMARG': _filter('madgwick', st),
+            'AQUA.updateIMU': _filter('aqua', st), 'AQUA.updateMARG': _filter('aqua', {**st, 'adaptive': True})}
+    if warm:
+        _warm(objs, q, dt, warm, inp.get('seed', 0))
+    outs = {}
+    for k, o in objs.items():
+        marg = k.endswith('MARG')
+        bb = np.array(o.b, float).copy() if k.startswith('Mahony') else None
+        if k.startswith('AQUA'):
+            v = cm.qconj(_null_step(o, marg, dt, w, cm.qconj(q), mag))
+        else:
+            v = _null_step(o, marg, dt, w, q, mag)
+        outs[k] = v
+        if bb is not None and (np.shape(o.b) != (3,) or cm.maxabs(np.asarray(o.b, float), bb) > 0):
+            return {'tag': f'{k}/acc-null-step-changes-bias', 'observed': np.asarray(o.b, float), 'expected': bb}
+    outs['ROLEQ.attitude_propagation'] = I['roleq'](dt, w, q)
+    outs['AngularRate.update-series1'] = I['series1'](dt, w, q)
     for name, v in outs.items():
         v = np.asarray(v, float)
         if v.shape != (4,) or cm.bad(v) or cm.maxabs(v, ref) > 1e-13:
-            return {'tag': f'{name}/acc-null-step', 'observed': v, 'expected': ref}
-    # the same step through the filters' own default time step (second call on the same objects, acc given as a list)
+            note = f"carried bias b = {np.asarray(objs[name].b, float).tolist()}" if name.startswith('Mahony') else ''
+            return {'tag': f'{name}/acc-null-step{region if name in objs else ""}', 'observed': v, 'expected': ref, 'note': note}
+    names = list(outs)
+    for a in range(len(names)):
+        for b in range(a + 1, len(names)):
+            if cm.maxabs(np.asarray(outs[names[a]], float), np.asarray(outs[names[b]], float)) > 2e-13:
+                return {'tag': 'dead-reckoning/filters-disagree', 'observed': outs[names[a]], 'expected': outs[names[b]],
+                        'note': f'{names[a]} vs {names[b]}'}
+    # the same step through the filters' own default time step (Dt= constructor option)
     import ahrs
     for name, cls in (('Madgwick.updateIMU', ahrs.filters.Madgwick), ('Mahony.updateIMU', ahrs.filters.Mahony)):
         o = cls(Dt=dt)
@@ -292,6 +439,14 @@ def o_deadreck(inp):
         v = np.asarray(o.updateIMU(q.copy(), w.copy(), np.zeros(3)), float)
         if cm.maxabs(v, ref) > 1e-13:
             return {'tag': f'{name}/acc-null-step-Dt-or-second-call', 'observed': v, 'expected': ref}
+    # a zero magnetometer sample on the MARG entry points (delegation to the IMU step)
+    for k in ('Mahony.updateMARG', 'Madgwick.updateMARG'):
+        v = _null_step(objs[k], True, dt, w, q, np.zeros(3))
+        if cm.maxabs(v, ref) > 1e-13:
+            d2 = q + 0.5 * objs[k].Dt * cm.qmul(q, np.array([0.0, *w]))
+            if cm.maxabs(v, d2 / np.linalg.norm(d2)) <= 1e-13:       # exactly the step for the object's own Dt: the dt argument was dropped
+                return {'tag': f'{k}/mag-null-delegation-drops-dt', 'observed': v, 'expected': ref}
+            return {'tag': f'{k}/acc-null-step-mag-null{region}', 'observed': v, 'expected': ref}
     return None
 
 
@@ -359,7 +514,15 @@ def search(ctx, scale):
         inp = {'q': q.tolist(), 'w': w.tolist(), 'dt': dt, 'order': 2 + i % 5}
         ctx.check('series', inp, cm_call2(o_series, inp, 'update-series'), nontrivial_key=rk(q, w, [dt]))
         inp = {'q': q.tolist(), 'w': w.tolist(), 'dt': dt}
-        ctx.check('deadreck', inp, cm_call2(o_deadreck, inp, 'dead-reckoning'), nontrivial_key=rk(q, w, [dt]))
+        if i % 3 == 1:       # carried state: the filters have already processed valid samples
+            inp.update({'warm': 2 + i % 6, 'seed': int(i)})
+        if i % 3 == 2:       # constructed with a non-zero initial bias and non-default gains
+            inp.update({'b0': (rng.standard_normal(3) * 10 ** rng.uniform(-3, -0.5)).tolist(),
+                        'state': {'kp': float(rng.uniform(0.2, 3)), 'ki': float(rng.uniform(0.05, 1)), 'gain': float(rng.uniform(0.01, 0.5)),
+                                  'alpha': float(rng.uniform(0.001, 0.5)), 'thr': float(rng.uniform(0.6, 0.99)), 'p': float(rng.uniform(0.01, 5))}})
+            if i % 2 == 0:
+                inp.update({'warm': 3, 'seed': int(i)})
+        ctx.check('deadreck', inp, cm_call2(o_deadreck, inp, 'dead-reckoning'), nontrivial_key=rk(q, w, [dt, inp.get('warm', 0), i % 3]))
         if i % 2 == 0:
             Na = NS[(i // 2) % len(NS)]
             if i % 4 == 0:
@@ -386,6 +549,10 @@ def search(ctx, scale):
         ('deadreck', {'q': e, 'w': [0.0, 0.0, 0.0], 'dt': 0.01}),
         ('deadreck', {'q': [0.0, 0.6, 0.0, 0.8], 'w': [0.0, 0.0, 10.0], 'dt': 0.05}),
         ('deadreck', {'q': [0.5, 0.5, 0.5, 0.5], 'w': [0.01, 0.0, 0.0], 'dt': 0.001}),
+        ('deadreck', {'q': e, 'w': [0.5, -0.25, 1.0], 'dt': 0.01, 'warm': 10, 'seed': 4}),
+        ('deadreck', {'q': [0.5, -0.5, 0.5, 0.5], 'w': [1.0, 2.0, -3.0], 'dt': 0.02, 'b0': [0.05, -0.02, 0.01]}),
+        ('deadreck', {'q': e, 'w': [0.0, 0.0, 0.0], 'dt': 0.01, 'b0': [0.05, -0.02, 0.01], 'warm': 2, 'seed': 1}),
+        ('deadreck', {'q': [0.0, 0.6, 0.0, 0.8], 'w': [10.0, 0.0, 0.0], 'dt': 0.05, 'warm': 4, 'seed': 9}),
         ('angvel', {'q0': e, 'W': [[0.0, 0.0, 0.0]], 'dt': 0.01, 'N': 3}),
         ('angvel', {'q0': [0.5, 0.5, 0.5, 0.5], 'W': [[6.0, -8.0, 0.0]], 'dt': 0.05, 'N': 4}),
         ('integration', {'w': [1.0, 0.0, 0.0], 'dt': 0.01, 'N': 50}),
